@@ -64,7 +64,7 @@ func (v Undefined) Truthy() bool { return false }
 func (v Null) Truthy() bool      { return false }
 func (v Bool) Truthy() bool      { return bool(v) }
 func (v Int) Truthy() bool       { return v != 0 }
-func (v Float) Truthy() bool     { return v != 0.0 && float64(v) != math.NaN() }
+func (v Float) Truthy() bool     { return v != 0.0 && !math.IsNaN(float64(v)) }
 func (v String) Truthy() bool    { return v != "" }
 func (v List) Truthy() bool      { return true }
 func (v Map) Truthy() bool       { return true }
